@@ -51,6 +51,35 @@ def _feed(res: C.Result, cases: List[Any], builts: Dict[str, Any]):
             res.sample({"auto_pad": ap, "in": blk[1], "impl": obs, "verdicts": r["props"]})
 
 
+def _feed_yaml(res: C.Result, groups):
+    lines: List[str] = []
+    meta: Dict[str, Any] = {}
+    for gid, ap, defs in groups:
+        for cid, blk in L.run_yaml_group(gid, ap, defs):
+            lines += blk
+            meta[cid] = (ap, defs, blk)
+    out = C.parse_driver(C.run_driver("layout", lines))
+    oc = res.extra.setdefault("yaml_outcomes", {})
+    for cid, (ap, defs, blk) in meta.items():
+        r = out.get(cid)
+        if r is None:
+            raise C.MachineryError(f"driver gave no answer for case {cid}")
+        obs = blk[2]
+        reuse = any(isinstance(b, str) for _n, b, _k in defs)
+        res.note_case((ap, repr(defs), cid.rsplit(".", 1)[1]), nontrivial=True)
+        res.traces_validated += 1
+        kind = ("reuse:" if reuse else "plain:") + obs.split()[1] + ("" if obs.split()[1] == "ok" else ":" + obs.split()[2])
+        oc[kind] = oc.get(kind, 0) + 1
+        case = {"auto_pad": ap, "yaml_group": [list(x) for x in defs], "definition": cid.rsplit(".", 1)[1], "protocol": blk}
+        for d in r["corr"]:
+            res.corr_diffs.append({"name": "corr:M6/layout(yaml)", "diff": d, "case": case})
+        for v in r["props"].get(PROP, []):
+            if v.startswith("fail"):
+                cl = v[5:]
+                res.failures.append(C.Failure(clause=cl, case=case, detail=f"{cl}: impl returned [{obs}] for IN [{blk[1]}]",
+                                              finding=C.match_finding(PROP, cl, case, MATCHERS)))
+
+
 def run(res: C.Result, deep: bool):
     rng = C.rng_for(res.seed, "C11" + ("deep" if deep else ""))
     builts: Dict[str, Any] = {}
@@ -67,11 +96,20 @@ def run(res: C.Result, deep: bool):
         cases.append((f"r{n}", rng.random() < 0.8, spec)); n += 1
     res.rule = ("exhaustive field lists of length <= %d over 4 widths x lengths {None,1,2,3,5} x auto_pad on/off; "
                 "directed size-limit / zero-length / nested cases; seeded random lists up to 30 fields with nested "
-                "structs to depth 3; a case is non-trivial when it has >= 2 fields; distinct by (auto_pad, spec)"
+                "structs to depth 3; plus the same Spec through the YAML front end (Parser.parse): groups of 2-6 struct/message "
+                "definitions with field-list reuse, reuse of a reuse, and reused definitions as members and array elements "
+                "(directed: 4 widths x 4 leading widths x struct/message; seeded random groups), member alignments computed "
+                "by the harness, not read from the parser; a case is non-trivial when it has >= 2 fields (every YAML case is); "
+                "distinct by (auto_pad, spec)"
                 % (4 if deep else 3))
     # chunk to bound memory
     for i in range(0, len(cases), 20000):
         _feed(res, cases[i:i + 20000], builts)
+    # the same property through the YAML front end (field-list reuse, struct members, struct arrays)
+    groups = [(f"yd{i}", ap, g) for i, g in enumerate(L.yaml_directed()) for ap in (True, False)]
+    for i in range(1500 if deep else 250):
+        groups.append((f"yr{i}", rng.random() < 0.7, L.yaml_random(rng)))
+    _feed_yaml(res, groups)
     # gcc as the C compiler of the property statement, on a sample of accepted structs
     keys = sorted(builts)
     rng.shuffle(keys)
@@ -85,6 +123,14 @@ def run(res: C.Result, deep: bool):
 
 def replay(body: Dict[str, Any]) -> int:
     case = body.get("case") or (body.get("first_corr_diff") or {}).get("case")
+    if case and "yaml_group" in case:
+        defs = [(n, b if isinstance(b, str) else [tuple(m) for m in b], k) for n, b, k in case["yaml_group"]]
+        bad = 0
+        for cid, blk in L.run_yaml_group("replay", case["auto_pad"], defs):
+            out = C.run_driver("layout", blk)
+            print("\n".join(blk)); print("\n".join(out))
+            bad += any(" fail" in o or "CORR diff" in o for o in out)
+        return 1 if bad else 0
     if not case or "spec" not in case:
         print("nothing replayable in this file"); return 2
     spec = [tuple(x) if not isinstance(x[1], list) else ("s", x[1], x[2]) for x in case["spec"]]
